@@ -240,7 +240,7 @@ func (E *Engine) VerifyFunc(p *packages.Package, pc *PkgContracts, c *FuncContra
 	f := &FuncCtx{E: E, Pkg: p, Decl: decl, C: c, PC: pc, S: NewSorts(modulePath), key: p.Types.Name() + "." + c.Key,
 		callOrd: map[string]int{}, safeOrd: map[string]int{}, trackCall: map[string]bool{}, notes: map[string]bool{},
 		heap0: map[string]string{}, heapSort: map[string][2]string{}, globals: map[types.Object]Val{}, pures: map[string]bool{},
-		specDone: map[string]bool{}, specBusy: map[string]bool{}, axiomsDone: map[string]bool{}}
+		specDone: map[string]bool{}, specBusy: map[string]bool{}, axiomsDone: map[string]bool{}, allocs: map[string][]string{}}
 	if strings.Contains(p.PkgPath, "/") {
 		// disambiguate same-named packages (core/qbft vs core/consensus/qbft)
 		rel := strings.TrimPrefix(p.PkgPath, modulePath+"/")
@@ -500,12 +500,16 @@ func (f *FuncCtx) frameObligation(exit *Env, sig *types.Signature) {
 			continue
 		}
 		srt := f.heapSort[h]
+		// skolemised: an arbitrary reference that is neither an allowed base nor allocated by this call
+		r := f.fresh("r_frame", srt[0])
 		var ex []string
 		for _, b := range allowed[h] {
-			ex = append(ex, fmt.Sprintf("(not (= r!q %s))", b))
+			ex = append(ex, fmt.Sprintf("(not (= %s %s))", r, b))
 		}
-		// freshly allocated references are not part of the caller-visible frame: only references are compared pointwise
-		g := fmt.Sprintf("(forall ((r!q %s)) (=> (and %s true) (= (select %s r!q) (select %s r!q))))", srt[0], strings.Join(ex, " "), h1, h0)
+		for _, a := range f.allocs[srt[0]] {
+			ex = append(ex, fmt.Sprintf("(not (= %s %s))", r, a))
+		}
+		g := fmt.Sprintf("(=> (and %s true) (= (select %s %s) (select %s %s)))", strings.Join(ex, " "), h1, r, h0, r)
 		goals = append(goals, g)
 	}
 	goal := "true"
@@ -527,7 +531,7 @@ func (E *Engine) VerifyLemmas(p *packages.Package, pc *PkgContracts, prop string
 		f := &FuncCtx{E: E, Pkg: p, C: c, PC: pc, S: NewSorts(modulePath), key: rel + ".lemma",
 			callOrd: map[string]int{}, safeOrd: map[string]int{}, trackCall: map[string]bool{}, notes: map[string]bool{},
 			heap0: map[string]string{}, heapSort: map[string][2]string{}, globals: map[types.Object]Val{}, pures: map[string]bool{},
-			specDone: map[string]bool{}, specBusy: map[string]bool{}, axiomsDone: map[string]bool{}}
+			specDone: map[string]bool{}, specBusy: map[string]bool{}, axiomsDone: map[string]bool{}, allocs: map[string][]string{}}
 		env := &Env{vars: map[types.Object]Val{}, names: map[string]Val{}, heap: map[string]string{}, pc: "true"}
 		f.emitAxioms(pc, env)
 		sc := &specCtx{nolocals: true, pcs: pc}
